@@ -32,11 +32,13 @@ static void on_send(int d)
 	vw_dgram_free(d);
 }
 
+static const char *PROPN = "C09";      /* "C10": only the well-formedness of the server's answers is judged (part of the C10 check) */
 static void viol(int t, int c, const char *what, const char *fmt, ...)
 {
 	char detail[300], sig[100];
+	if (!strcmp(PROPN, "C10") && strcmp(what, "answer-malformed")) return;
 	va_list ap; va_start(ap, fmt); vsnprintf(detail, sizeof detail, fmt, ap); va_end(ap);
-	snprintf(sig, sizeof sig, "C09:%s:%c:%s", TNAME[t], CODECS[c], what);
+	snprintf(sig, sizeof sig, "%s:%s:%c:%s", PROPN, TNAME[t], CODECS[c], what);
 	xp_violation(sig, "%s", detail);
 }
 
@@ -172,7 +174,8 @@ int main(int argc, char **argv)
 		jmp_buf jb;
 		if (setjmp(jb) == 0) { vw_direct_begin(1, &jb); ca_w_setup(&c); vw_direct_end(); }
 	}
-	xp_init("C09", a.tier, 1024, a.budget_s);
+	for (int i = 0; i < a.nextra; i++) if (!strcmp(a.extra[i], "--prop") && i + 1 < a.nextra) PROPN = a.extra[++i];
+	xp_init(PROPN, a.tier, 1024, a.budget_s);
 	if (a.replay) { job(xp_load_replay(a.replay)); return 0; }
 	hc_quiet();
 	xp_run_jobs(70, job, a.workers);
